@@ -139,7 +139,9 @@ Definition c12_step (g : list (key * N)) (V : view) (ob : obs) : list (key * N) 
   | Some (RFinalizeRewards, ms, _) =>
       match dist_of (post_of V post (nthk ms 1)) with
       | Some (d, _) => if hash_eqb (d_rewards_root d) null_hash
-                       then chk (d_total_debt d - written_into g (nthk ms 1) =? 0) (nthk ms 1) 4 (d_total_debt d - written_into g (nthk ms 1))
+                       then chk (d_total_debt d - written_into g (nthk ms 1) =? 0) (nthk ms 1) 4 (d_total_debt d - written_into g (nthk ms 1)) ++
+                            (* nothing collectible means nothing was collected either: a paid leaf cannot also have been written off *)
+                            chk (d_collected_sol d =? 0) (nthk ms 1) 5 (d_collected_sol d)
                        else []
       | None => [] end
   | _ => [] end ++
@@ -650,6 +652,10 @@ Definition holder (V : view) (r : role) (rec : key) : option key :=
   | RolePpAdmin => option_map pc_admin (ppconfig_of (vget V rec))
   | RolePpSentinel => option_map pc_sentinel (ppconfig_of (vget V rec))
   end.
+Definition tx_mentions_rd_early (o : op) (p : rd_ix -> bool) : bool :=
+  match o with
+  | OTx t => existsb (fun i => match unwrap (i_data i) (i_metas i) with (IxRd r, _, _) => p r | _ => false end) (tx_ixs t)
+  | _ => false end.
 Definition c07_step (V : view) (ob : obs) : clauses :=
   let '(o, ok, post) := ob in
   if negb (is_tx o) then [] else
@@ -666,6 +672,21 @@ Definition c07_step (V : view) (ob : obs) : clauses :=
                       chk (negb (key_eqb auth default_key)) auth 4 0
           | None => [(nthk ms rp, 5, 0)] end
       | None => [] end in
+    (* the role keys themselves: an admin key changes only in a transaction containing SetAdmin, and a configuration that appears in
+       a transaction has no admin yet (initialisation is permissionless and appoints nobody) *)
+    let is_set_admin_rd := tx_mentions_rd_early o (fun r => match r with RSetAdmin _ => true | _ => false end) in
+    let is_set_admin_pp := match o with
+      | OTx t' => existsb (fun i => match unwrap (i_data i) (i_metas i) with (IxPassport (PSetAdmin _), _, _) => true | _ => false end) (tx_ixs t')
+      | _ => false end in
+    flat_map (fun '(k, a) =>
+      match config_of a, config_of (vget V k) with
+      | Some c1, Some c0 => chk (key_eqb (c_admin c1) (c_admin c0) || is_set_admin_rd) k 6 0
+      | Some c1, None => chk (key_eqb (c_admin c1) default_key) k 7 0
+      | _, _ => [] end ++
+      match ppconfig_of a, ppconfig_of (vget V k) with
+      | Some c1, Some c0 => chk (key_eqb (pc_admin c1) (pc_admin c0) || is_set_admin_pp) k 6 0
+      | Some c1, None => chk (key_eqb (pc_admin c1) default_key) k 7 0
+      | _, _ => [] end) post ++
     match single o with
     | Some (KRd, IxRd i, ms, _, t) => check (role_of_rd i) ms t
     | Some (KPassport, IxPassport i, ms, _, t) => check (role_of_pp i) ms t
